@@ -101,6 +101,13 @@ impl ReadLine for std::io::Stdin {
     #[cfg(not(tarpaulin_include))]
     fn read_line_(&mut self) -> Result<String, Error> {
         let mut res = String::new();
+        #[cfg(hyeong_verif)]
+        {
+            if let Some(r) = crate::util::verif::stdin_read_line(&mut res) {
+                r?;
+                return Ok(res);
+            }
+        }
         self.read_line(&mut res)?;
         Ok(res)
     }
@@ -182,6 +189,8 @@ pub fn handle<T>(w: &mut StandardStream, res: Result<T, Error>) -> T {
 #[cfg(not(tarpaulin_include))]
 pub fn print_error(w: &mut StandardStream, err: Error) -> ! {
     print_error_no_exit(w, err);
+    #[cfg(hyeong_verif)]
+    crate::util::verif::exit("print_error", 1);
     process::exit(1);
 }
 
@@ -192,6 +201,8 @@ where
     S: Display,
 {
     print_error_str_no_exit(w, err);
+    #[cfg(hyeong_verif)]
+    crate::util::verif::exit("print_error_str", 1);
     process::exit(1);
 }
 
